@@ -50,6 +50,11 @@ func (c *Constraints) transform(v reflect.Value) {
 		return
 	}
 
+	// nothing to transform in a nil interface
+	if v.Kind() == reflect.Interface && v.IsNil() {
+		return
+	}
+
 	// handing upper constraint
 	if c.Upper {
 		switch v.Kind() {
